@@ -234,9 +234,11 @@ class Spec:
                 self._apply_merge(st, ev[2])
             elif kind == "write":
                 _, r, c = ev
+                # a placeholder by the model, or (when the model no longer knows the rectangles) by what the table reports
+                reported_placeholder = st.mode == "consistency" and isinstance(t.cell(r, c), MergedCell)
                 t.write(r, c, "W")
                 own = [x for x in st.rects if x[0] <= r <= x[2] and x[1] <= c <= x[3]]
-                if own and (r, c) != (own[0][0], own[0][1]):
+                if reported_placeholder or (own and (r, c) != (own[0][0], own[0][1])):
                     # writing into a placeholder: the statement does not say what becomes of the rectangle, only that
                     # the open document and the saved file show the same, self-consistent picture (known finding class)
                     st.mode = "placeholder-written"
